@@ -68,6 +68,9 @@ type c08Tap struct {
 	msgEp  map[lnwire.Message]int
 	hashP  map[[32]byte]int
 	gate   map[string]chan struct{} // while the links of a channel are being re-created their sends wait here
+	lostCh string        // armed: Bob's link of this channel (of epoch lostEp) loses every settle/fail it hands to the switch
+	lostEp int
+	lostHit chan struct{} // ... and tells the driver when a response that sits in a forwarding package was lost
 	cutCh  string        // armed: the next revoke_and_ack sent on this channel parks its sender ...
 	cutHit chan struct{} // ... and tells the driver, which restarts the links of that channel
 }
@@ -80,6 +83,7 @@ func c08NewTap() *c08Tap {
 		last:  time.Now(),
 		gate:  make(map[string]chan struct{}),
 		cutHit: make(chan struct{}, 1),
+		lostHit: make(chan struct{}, 16),
 	}
 }
 
@@ -180,6 +184,47 @@ func (t *c08Tap) waitGate(ch string, ep int) {
 	if g != nil && ep == cur {
 		<-g
 	}
+}
+
+// armLost: from now on the hand-over of settles and fails from Bob's current link of channel ch to the
+// switch is lost with ErrLinkShuttingDown - what Switch.ForwardPackets / routeAsync answer when the link's
+// quit channel fires first (fault "lost": the link goes down at the moment it hands a response over).
+func (t *c08Tap) armLost(ch string) {
+	t.mu.Lock()
+	t.lostCh, t.lostEp = ch, t.epoch[ch]
+	t.mu.Unlock()
+}
+
+// loseResponses decides (and records) whether a batch a link hands to its switch is lost.
+func (t *c08Tap) loseResponses(from, ch string, ep int, pkts []*htlcPacket) bool {
+	t.mu.Lock()
+	defer t.mu.Unlock()
+	if from != "B" || ch == "" || t.lostCh != ch || t.lostEp != ep {
+		return false
+	}
+	lost, ref := false, false
+	for _, p := range pkts {
+		switch p.htlc.(type) {
+		case *lnwire.UpdateFulfillHTLC, *lnwire.UpdateFailHTLC:
+			lost = true
+			ref = ref || p.destRef != nil
+		}
+	}
+	if !lost {
+		return false
+	}
+	r := 0
+	if ref {
+		r = 1
+	}
+	t.emitLocked(c08Rec{"a": "Note", "what": "lost-handover", "n": from, "ch": ch, "np": len(pkts), "ref": r})
+	if ref {
+		select {
+		case t.lostHit <- struct{}{}:
+		default:
+		}
+	}
+	return true
 }
 
 func (t *c08Tap) inFlight(m lnwire.Message) bool {
@@ -299,7 +344,11 @@ func c08CreateLink(h *hopNetwork, server *mockServer, peer lnpeer.Peer,
 		return nil
 	}
 	getAliases := func(base lnwire.ShortChannelID) []lnwire.ShortChannelID { return nil }
+	tp, _ := peer.(*c08Peer)
 	forwardPackets := func(linkQuit <-chan struct{}, _ bool, packets ...*htlcPacket) error {
+		if tp != nil && tp.tap.loseResponses(tp.from, tp.ch, tp.epoch, packets) {
+			return ErrLinkShuttingDown
+		}
 		return server.htlcSwitch.ForwardPackets(linkQuit, packets...)
 	}
 
@@ -545,7 +594,7 @@ type c08Item struct {
 	A    string `json:"a"`    // Pay | Fault
 	Dir  string `json:"dir"`  // fwd (Alice->Carol) | rev (Carol->Alice)
 	Amt  int    `json:"amt"`  // msat delivered
-	Kind string `json:"kind"` // Pay: ok leak unknown wrongamt hold_settle hold_cancel underpaid; Fault: net linkAB linkBC discAB discBC cutAB cutBC
+	Kind string `json:"kind"` // Pay: ok leak unknown wrongamt hold_settle hold_cancel underpaid; Fault: net linkAB linkBC discAB discBC cutAB cutBC lostAB lostBC
 	At   int    `json:"at"`   // tap count that triggers it (0 = at start)
 	Hat  int    `json:"hat"`  // hold invoices: tap count at which the invoice is resolved (0 = at quiescence)
 }
@@ -889,6 +938,19 @@ func c08Run(t *testing.T, run int, name string, items []c08Item) (recs []c08Rec,
 			case "discBC":
 				tap.bump("BC")
 				tap.note(c08Rec{"a": "Disc", "ch": "BC"})
+			case "lostAB", "lostBC":
+				// Bob's link of the channel loses the responses it hands to the switch (as if it
+				// were shutting down at that moment); once a response that is recorded in its
+				// forwarding package has been lost, the channel reconnects - the switch stays up
+				ch := strings.TrimPrefix(s.f.Kind, "lost")
+				tap.armLost(ch)
+				select {
+				case <-tap.lostHit:
+					time.Sleep(30 * time.Millisecond)
+					err = cn.linkRestart(ch)
+				case <-time.After(2 * time.Second):
+				}
+				tap.armLost("")
 			case "cutAB", "cutBC":
 				// stop the links of the channel exactly between a revoke_and_ack and the
 				// signature its sender owes, then reconnect
@@ -975,7 +1037,7 @@ func c08FreePlan(rng *rand.Rand) []c08Item {
 		}
 		items = append(items, it)
 	}
-	fk := []string{"net", "linkAB", "linkBC", "discAB", "discBC", "cutAB", "cutBC"}
+	fk := []string{"net", "linkAB", "linkBC", "discAB", "discBC", "cutAB", "cutBC", "lostAB", "lostBC"}
 	nf := rng.Intn(3)
 	for i := 0; i < nf; i++ {
 		items = append(items, c08Item{A: "Fault", Kind: fk[rng.Intn(len(fk))], At: 5 + rng.Intn(160)})
